@@ -128,6 +128,13 @@ def run_case(c):
     if (L is None) != (R is None):
         return viol('listed-by-one-command-only', '|struct=%s' % c['st'])
     if L is None:
+        # nobody lists it: then trash-rm must not find a path in it either, and trash-empty DAYS no date
+        with cell.Sandbox(spec) as sb4:
+            b4 = sb4.snapshot()
+            sb4.run(['trash-rm', '*'], cwd='/')
+            readings['rm_star_when_unlisted'] = scen.entry_state(b4, sb4.snapshot(), td, 'e')
+        if not d.startswith('trash-dir') and readings['rm_star_when_unlisted'] != 'kept':
+            return viol('unlisted-entry-matched-by-rm', '|struct=%s' % c['st'])
         return {'verdict': 'ok', 'klass': 'unreadable-for-all', 'nontrivial': False, 'execs': 4, 'detail': detail}
     if L != R:
         return viol('list-and-restore-disagree-on-path')
